@@ -1299,6 +1299,42 @@ impl PeerConnection {
     pub fn set_local_description(&self, desc: SessionDescription) -> RtcResult<()> {
         self.inner.validate_sdp_type(&desc.sdp_type)?;
 
+        // Validate the state transition before touching any transceiver, so a
+        // call that is refused leaves mids / payload maps / extmaps untouched.
+        let next_state = {
+            let state = *self.inner.signaling_state.borrow();
+            match desc.sdp_type {
+                SdpType::Offer => {
+                    if state != SignalingState::Stable {
+                        return Err(RtcError::InvalidState(
+                            "set_local_description(offer) requires stable signaling state".into(),
+                        ));
+                    }
+                    Some(SignalingState::HaveLocalOffer)
+                }
+                SdpType::Answer => {
+                    if state != SignalingState::HaveRemoteOffer {
+                        return Err(RtcError::InvalidState(
+                            "set_local_description(answer) requires remote offer".into(),
+                        ));
+                    }
+                    Some(SignalingState::Stable)
+                }
+                SdpType::Pranswer => {
+                    if state != SignalingState::HaveRemoteOffer {
+                        return Err(RtcError::InvalidState(
+                            "set_local_description(pranswer) requires remote offer".into(),
+                        ));
+                    }
+                    // Stay in HaveRemoteOffer.
+                    None
+                }
+                SdpType::Rollback => {
+                    return Err(RtcError::NotImplemented("rollback"));
+                }
+            }
+        };
+
         // For Offerer: extract parameters from local offer (our intended changes)
         // This allows Offerer to immediately update transceivers with new parameters
         // that will be confirmed when answer is received
@@ -1358,37 +1394,8 @@ impl PeerConnection {
             }
         }
 
-        {
-            let state = &self.inner.signaling_state;
-            match desc.sdp_type {
-                SdpType::Offer => {
-                    if *state.borrow() != SignalingState::Stable {
-                        return Err(RtcError::InvalidState(
-                            "set_local_description(offer) requires stable signaling state".into(),
-                        ));
-                    }
-                    let _ = state.send(SignalingState::HaveLocalOffer);
-                }
-                SdpType::Answer => {
-                    if *state.borrow() != SignalingState::HaveRemoteOffer {
-                        return Err(RtcError::InvalidState(
-                            "set_local_description(answer) requires remote offer".into(),
-                        ));
-                    }
-                    let _ = state.send(SignalingState::Stable);
-                }
-                SdpType::Pranswer => {
-                    if *state.borrow() != SignalingState::HaveRemoteOffer {
-                        return Err(RtcError::InvalidState(
-                            "set_local_description(pranswer) requires remote offer".into(),
-                        ));
-                    }
-                    // Stay in HaveRemoteOffer.
-                }
-                SdpType::Rollback => {
-                    return Err(RtcError::NotImplemented("rollback"));
-                }
-            }
+        if let Some(next) = next_state {
+            let _ = self.inner.signaling_state.send(next);
         }
         let mut local = self.inner.local_description.lock();
         *local = Some(desc);
